@@ -63,7 +63,10 @@ def check_tables(out, dump: dict) -> dict:
         types = acc._ReferenceSearchingAccessor__candidate_types()
         want = []
         for t_ in types:
-            want.append(t_ if isinstance(t_, str) else _try_build(t_))
+            if isinstance(t_, str):
+                want.append(t_)
+            else:  # what search() turns a class argument into: its registered types, else the derived one
+                want += [k for k, c in H.items() if c is t_] or [_try_build(t_)]
         out.hit("tables:backref-candidates")
         if b["candidates"] != want:
             out.disagree("tables.candidates", {"owner": owner, "name": n}, want[:12], b["candidates"][:12])
